@@ -295,9 +295,22 @@ class Generator:
                     continue
                 sections[-1][1].append(ln)
         unit = None
-        opts = {"ret": None, "spec": [], "loops": {}, "inserts": [], "attr": [], "members": [], "drops": [], "body": None, "closures": []}
+
+        def fresh():
+            return {"ret": None, "spec": [], "loops": {}, "inserts": [], "attr": [], "members": [], "drops": [], "body": None,
+                    "closures": [], "flags": []}
+
+        opts = fresh()
+        main_opts = opts
+        also: List[Tuple[str, dict]] = []
         for h, payload in sections:
             words = h.split()
+            if words[0] == "also":
+                # sibling fn of the same impl, emitted inside the same impl block: `//@@ also fn meta [external_body]`
+                opts = fresh()
+                opts["flags"] = words[3:]
+                also.append((words[2], opts))
+                continue
             if words[0] == "unit":
                 tags, flags = parse_tags(words[2:])
                 unit = Unit(words[1], kind, tags, flags, tpl_line=tpl_line)
@@ -348,9 +361,10 @@ class Generator:
         unit.src_end_line = src.toks[item.close].line
         unit.gen_start = self.w.line
         if kind == "type":
-            self.emit_type(unit, src, item, opts)
+            self.emit_type(unit, src, item, main_opts)
         else:
-            self.emit_fn(unit, src, item, parents, opts)
+            main_opts["also"] = also
+            self.emit_fn(unit, src, item, parents, main_opts)
         unit.gen_end = self.w.line - 1
         self.units.append(unit)
 
@@ -581,18 +595,33 @@ class Generator:
             for l in opts["members"]:
                 w.emit(l + "\n")
             # account for siblings
+            also_names = [n for n, _ in opts.get("also", [])]
             sibs = [s_ for s_ in body_items(toks, impl) if s_.kind == "fn" and s_.name != item.name]
             if trait_impl:
                 for s_ in sibs:
+                    if s_.name in also_names:
+                        continue
                     if s_.name not in opts["drops"]:
                         raise ShapeError(
                             "%s: trait impl has fn `%s` that the unit neither extracts nor drops" % (unit.name, s_.name)
                         )
                     self.dropped.append("%s: fn %s of `%s` not extracted" % (src.rel, s_.name, unit.selector))
+        self._emit_one_fn(unit, src, item, opts, trait_impl, assoc_types, unit.flags)
+        for n, o in opts.get("also", []):
+            cands = [s_ for s_ in body_items(toks, impl) if s_.kind == "fn" and s_.name == n] if impl is not None else []
+            if len(cands) != 1:
+                raise AnchorError("%s: sibling fn `%s` not found in the impl" % (unit.name, n))
+            self._emit_one_fn(unit, src, cands[0], o, trait_impl, assoc_types, o["flags"])
+        if wrap:
+            w.emit("}\n")
+
+    def _emit_one_fn(self, unit: Unit, src: Source, item: Item, opts, trait_impl: bool, assoc_types, flags):
+        toks = src.toks
+        w = self.w
         for l in opts["attr"]:
             w.emit(l + "\n")
         w.emit(kept_attrs(src, item))
-        if "external_body" in unit.flags:
+        if "external_body" in flags:
             w.emit("#[verifier::external_body]\n")
         if not trait_impl:
             w.emit("pub ")
@@ -668,11 +697,12 @@ class Generator:
                     unit.has_requires = True
             w.emit("\n".join(spec) + "\n")
         # ---- body with insertions
-        if "external_body" in unit.flags:
+        if "external_body" in flags:
             w.emit("{ unimplemented!() }\n")
+            self.dropped.append("%s: body of fn %s (%s) not extracted: assumed (external_body)" % (src.rel, item.name, unit.name))
         else:
             body_close = item.close
-            ins = self._body_insertions(unit, src, body_open, body_close, opts)
+            ins = self._body_insertions(unit, src, body_open, body_close, opts, flags)
             ins += body_edits
             ins += [(a, b, "") for a, b in strip_inner_attrs(src, body_open, body_close) ]
             unit.body_open_line = w.line
@@ -680,10 +710,8 @@ class Generator:
                 ins.append((body_open + 1, body_open + 1, " proof { assert(false); } "))
             self._emit_with_edits(src, body_open, body_close + 1, ins)
             w.emit("\n")
-        if wrap:
-            w.emit("}\n")
 
-    def _body_insertions(self, unit: Unit, src: Source, bo: int, bc: int, opts):
+    def _body_insertions(self, unit: Unit, src: Source, bo: int, bc: int, opts, flags=()):
         toks = src.toks
         edits: List[Tuple[int, int, str]] = []
         # loops
@@ -713,9 +741,9 @@ class Generator:
         if want:
             if max(want) > len(loops):
                 raise ShapeError("%s: unit annotates loop %d but the body has %d loops" % (unit.name, max(want), len(loops)))
-            if "loops=%d" % len(loops) not in unit.flags and any(f.startswith("loops=") for f in unit.flags):
+            if "loops=%d" % len(loops) not in flags and any(f.startswith("loops=") for f in flags):
                 raise ShapeError("%s: number of loops changed (now %d)" % (unit.name, len(loops)))
-        elif any(f.startswith("loops=") for f in unit.flags) and "loops=%d" % len(loops) not in unit.flags:
+        elif any(f.startswith("loops=") for f in flags) and "loops=%d" % len(loops) not in flags:
             raise ShapeError("%s: number of loops changed (now %d)" % (unit.name, len(loops)))
         for n, payload in want.items():
             kw, opn = loops[n - 1]
